@@ -195,8 +195,11 @@ type TermBuilder struct {
 	visiting map[ssa.Value]bool
 	stores   map[ssa.Value][]*ssa.Store // by root alloc
 	built    bool
+	closureStores map[*ssa.Store]bool
 	pdom     map[*ssa.BasicBlock]map[*ssa.BasicBlock]bool
 	MaxDepth int
+	NoInline bool
+	inlineDepth int
 	// Inline: module functions whose single-return body may be substituted (none by default).
 }
 
@@ -295,9 +298,52 @@ func (tb *TermBuilder) buildStores() {
 			if s, ok := i.(*ssa.Store); ok {
 				if a, _, ok := rootAlloc(s.Addr); ok {
 					tb.stores[a] = append(tb.stores[a], s)
+				} else if f != tb.F {
+					// store through a captured variable: attribute it to the captured alloc (whole-object, path unknown)
+					if a := capturedAlloc(s.Addr); a != nil {
+						tb.stores[a] = append(tb.stores[a], s)
+						if tb.closureStores == nil {
+							tb.closureStores = map[*ssa.Store]bool{}
+						}
+						tb.closureStores[s] = true
+					}
 				}
 			}
 		})
+	}
+}
+
+// capturedAlloc resolves an address rooted at a closure's free variable to the Alloc it was bound to.
+func capturedAlloc(addr ssa.Value) *ssa.Alloc {
+	for {
+		switch a := addr.(type) {
+		case *ssa.FieldAddr:
+			addr = a.X
+		case *ssa.IndexAddr:
+			addr = a.X
+		case *ssa.FreeVar:
+			fn := a.Parent()
+			idx := -1
+			for i, fv := range fn.FreeVars {
+				if fv == a {
+					idx = i
+				}
+			}
+			if idx < 0 || fn.Parent() == nil {
+				return nil
+			}
+			var out *ssa.Alloc
+			eachInstr(fn.Parent(), func(i ssa.Instruction) {
+				if mc, ok := i.(*ssa.MakeClosure); ok && mc.Fn == ssa.Value(fn) && idx < len(mc.Bindings) {
+					if al, ok := mc.Bindings[idx].(*ssa.Alloc); ok {
+						out = al
+					}
+				}
+			})
+			return out
+		default:
+			return nil
+		}
 	}
 }
 
@@ -350,6 +396,10 @@ func (tb *TermBuilder) resolve(a *ssa.Alloc, path []string, depth int, L ssa.Ins
 		}
 		needZero := L != nil && L.Parent() == tb.F
 		for _, s := range live {
+			if tb.closureStores[s] {
+				cands = append(cands, projectPath(&Term{Op: "closurewrite", Name: fname(s.Parent()), V: a}, path))
+				continue
+			}
 			_, sp, _ := rootAlloc(s.Addr)
 			if needZero && s.Parent() == tb.F && (pathEq(sp, path) || hasPrefix(path, sp)) && domInstr(s, L) {
 				needZero = false
@@ -432,7 +482,9 @@ func (tb *TermBuilder) loadOther(addr ssa.Value, depth int) *Term {
 			x = tb.term(a.X, depth+1)
 		}
 		if isRangeIndex(a.Index) {
-			return &Term{Op: "each", Args: []*Term{x}, V: a}
+			t := tb.eachOrZip(x, a.Index)
+			t.V = a
+			return t
 		}
 		return &Term{Op: "index", Args: []*Term{x, tb.term(a.Index, depth+1)}, V: a}
 	}
@@ -568,6 +620,16 @@ func (tb *TermBuilder) term1(v ssa.Value, depth int) *Term {
 	case *ssa.Call:
 		name := calleeName(v)
 		args := callArgs(v)
+		if g := v.Call.StaticCallee(); g != nil && !tb.NoInline && tb.inlineDepth < 4 && inlinable(g) {
+			sub := newTB(g)
+			sub.inlineDepth = tb.inlineDepth + 1
+			rt := sub.T(returnsOf(g)[0].Results[0])
+			ats := make([]*Term, len(args))
+			for i, a := range args {
+				ats[i] = tb.term(a, d)
+			}
+			return substParams(rt, ats)
+		}
 		ts := make([]*Term, 0, len(args)+1)
 		if name == "" {
 			ts = append(ts, tb.term(v.Call.Value, d))
@@ -578,6 +640,9 @@ func (tb *TermBuilder) term1(v ssa.Value, depth int) *Term {
 		}
 		return &Term{Op: "call", Name: name, Args: ts}
 	case *ssa.Phi:
+		if ct := tb.collectTerm(v, d); ct != nil {
+			return ct
+		}
 		var ts []*Term
 		seen := map[string]bool{}
 		for _, e := range v.Edges {
@@ -599,7 +664,7 @@ func (tb *TermBuilder) term1(v ssa.Value, depth int) *Term {
 		return &Term{Op: "indexaddr", Args: []*Term{tb.term(v.X, d), tb.term(v.Index, d)}}
 	case *ssa.Index:
 		if isRangeIndex(v.Index) {
-			return &Term{Op: "each", Args: []*Term{tb.term(v.X, d)}}
+			return tb.eachOrZip(tb.term(v.X, d), v.Index)
 		}
 		return &Term{Op: "index", Args: []*Term{tb.term(v.X, d), tb.term(v.Index, d)}}
 	case *ssa.Lookup:
@@ -929,7 +994,22 @@ func cOr(a, b *Cond) *Cond {
 	if a.String() == b.String() {
 		return a
 	}
-	// x&&c || x&&!c  => x   (common diamond merge)
+	// X || (!X && Y)  =>  X || Y   (short-circuit "||" lowering)
+	for k := 0; k < 2; k++ {
+		x, y := a, b
+		if k == 1 {
+			x, y = b, a
+		}
+		if y.Op == "and" && len(y.Args) == 2 {
+			nx := cNot(x).String()
+			if y.Args[0].String() == nx {
+				return cOr(x, y.Args[1])
+			}
+			if y.Args[1].String() == nx {
+				return cOr(x, y.Args[0])
+			}
+		}
+	}
 	return &Cond{Op: "or", Args: []*Cond{a, b}}
 }
 
@@ -1100,6 +1180,10 @@ func (tb *TermBuilder) liveStores(a *ssa.Alloc, path []string, L ssa.Instruction
 	all := tb.stores[a]
 	var out []*ssa.Store
 	for _, s := range all {
+		if tb.closureStores[s] {
+			out = append(out, s)
+			continue
+		}
 		_, p, _ := rootAlloc(s.Addr)
 		if !(pathEq(p, path) || hasPrefix(path, p) || hasPrefix(p, path)) {
 			continue
@@ -1127,7 +1211,7 @@ func (tb *TermBuilder) writerLivePath(a *ssa.Alloc, W ssa.Instruction, wpath []s
 	tb.buildStores()
 	barriers := map[ssa.Instruction]bool{ssa.Instruction(a): true}
 	for _, s := range tb.stores[a] {
-		if ssa.Instruction(s) == W || s.Parent() != tb.F {
+		if ssa.Instruction(s) == W || s.Parent() != tb.F || tb.closureStores[s] {
 			continue
 		}
 		_, sp, _ := rootAlloc(s.Addr)
@@ -1287,4 +1371,216 @@ func (c *Cond) implies(atom string, neg bool) bool {
 		}
 	}
 	return false
+}
+
+// inlinable: a module function that is a pure single-expression wrapper (one block, one result,
+// no stores, no go/defer/send/map updates). Its body term is substituted at call sites so that rules
+// see through small helpers and a change inside a helper shows up in its callers' terms.
+func inlinable(g *ssa.Function) bool {
+	if !inModule(g) || len(g.Blocks) != 1 || g.Signature.Results().Len() != 1 || len(g.FreeVars) > 0 || g.Signature.Variadic() {
+		return false
+	}
+	for _, i := range g.Blocks[0].Instrs {
+		switch i.(type) {
+		case *ssa.Store, *ssa.MapUpdate, *ssa.Send, *ssa.Go, *ssa.Defer, *ssa.Panic, *ssa.Alloc, *ssa.MakeClosure, *ssa.RunDefers:
+			return false
+		}
+	}
+	return len(returnsOf(g)) == 1
+}
+
+func substParams(t *Term, args []*Term) *Term {
+	if t == nil {
+		return nil
+	}
+	if t.Op == "param" {
+		if i, err := strconv.Atoi(t.Name); err == nil && i < len(args) {
+			return args[i]
+		}
+	}
+	if len(t.Args) == 0 {
+		return t
+	}
+	n := &Term{Op: t.Op, Name: t.Name, V: t.V, Args: make([]*Term, len(t.Args))}
+	for i, a := range t.Args {
+		n.Args[i] = substParams(a, args)
+	}
+	// keep commutative operands canonically ordered after substitution
+	if n.Op == "binop" && len(n.Args) == 2 {
+		switch n.Name {
+		case "*", "==", "!=", "&", "|", "^":
+			if n.Args[0].String() > n.Args[1].String() {
+				n.Args[0], n.Args[1] = n.Args[1], n.Args[0]
+			}
+		}
+	}
+	return n
+}
+
+// eachOrZip: X[i] with i a range index. If the loop ranges over X itself this is each(X); if it
+// ranges over another slice Y it is zip(X, Y): "the element of X at the position of the current element of Y".
+func (tb *TermBuilder) eachOrZip(x *Term, idx ssa.Value) *Term {
+	b := idx.(*ssa.BinOp)
+	ph := b.X.(*ssa.Phi)
+	// loop guard: idx < len(Y) in the phi's block
+	if ifi, ok := ph.Block().Instrs[len(ph.Block().Instrs)-1].(*ssa.If); ok {
+		if cmp, ok := ifi.Cond.(*ssa.BinOp); ok && cmp.Op == token.LSS && cmp.X == ssa.Value(b) {
+			if ln, ok := cmp.Y.(*ssa.Call); ok && calleeName(ln) == "builtin:len" {
+				y := tb.term(ln.Call.Args[0], 1)
+				if y.String() == x.String() {
+					return &Term{Op: "each", Args: []*Term{x}}
+				}
+				return &Term{Op: "zip", Args: []*Term{x, y}}
+			}
+		}
+	}
+	return &Term{Op: "index", Args: []*Term{x, {Op: "rangeidx", Name: ph.Name()}}}
+}
+
+// collectTerm recognises a slice accumulated from empty by ONE append site (possibly inside nested
+// loops and conditions): the phi web's only members are phis, that append call, and nil/empty
+// initialisers. Result: collect(e) = "the list of e, one per execution of the append site, in order".
+func (tb *TermBuilder) collectTerm(p *ssa.Phi, depth int) *Term {
+	if _, ok := p.Type().Underlying().(*types.Slice); !ok {
+		return nil
+	}
+	web := map[ssa.Value]bool{}
+	var appends []*ssa.Call
+	okWeb := true
+	var visit func(v ssa.Value)
+	visit = func(v ssa.Value) {
+		if web[v] || !okWeb {
+			return
+		}
+		switch x := v.(type) {
+		case *ssa.Phi:
+			web[v] = true
+			for _, e := range x.Edges {
+				visit(e)
+			}
+		case *ssa.Call:
+			if calleeName(x) != "builtin:append" {
+				okWeb = false
+				return
+			}
+			web[v] = true
+			appends = append(appends, x)
+			visit(x.Call.Args[0])
+		case *ssa.Const:
+			if x.Value != nil {
+				okWeb = false
+			}
+		case *ssa.Slice:
+			// empty literal []T{}: slice of a zero-length array alloc
+			if a, ok := x.X.(*ssa.Alloc); ok {
+				if arr, ok := deref(a.Type()).Underlying().(*types.Array); ok && arr.Len() == 0 {
+					return
+				}
+			}
+			okWeb = false
+		case *ssa.MakeSlice:
+			if c, ok := x.Len.(*ssa.Const); ok && c.Value != nil && c.Value.ExactString() == "0" {
+				return
+			}
+			okWeb = false
+		default:
+			okWeb = false
+		}
+	}
+	visit(p)
+	if !okWeb || len(appends) != 1 {
+		return nil
+	}
+	ap := appends[0]
+	// single element: append(web, []T{e}...)
+	sl, ok := ap.Call.Args[1].(*ssa.Slice)
+	if !ok {
+		return nil
+	}
+	arr, ok := sl.X.(*ssa.Alloc)
+	if !ok {
+		return nil
+	}
+	at, ok := deref(arr.Type()).Underlying().(*types.Array)
+	if !ok || at.Len() != 1 {
+		return nil
+	}
+	tb.buildStores()
+	var elem *Term
+	for _, st := range tb.stores[arr] {
+		if _, pth, _ := rootAlloc(st.Addr); len(pth) == 1 && pth[0] == "[0]" {
+			elem = tb.term(st.Val, depth+1)
+		}
+	}
+	if elem == nil {
+		return nil
+	}
+	return &Term{Op: "collect", Args: []*Term{elem}, V: ap}
+}
+
+// appSite is one place where an element is appended to a list term (a collect node or a raw append call).
+type appSite struct {
+	Elem *Term
+	At   ssa.Instruction
+}
+
+func appendSites(t *Term) []appSite {
+	var out []appSite
+	seen := map[ssa.Value]bool{}
+	t.walk(func(x *Term) {
+		switch {
+		case x.Op == "collect":
+			if x.V != nil && !seen[x.V] {
+				seen[x.V] = true
+				out = append(out, appSite{x.Args[0], x.V.(ssa.Instruction)})
+			}
+		case x.isCall("builtin:append"):
+			if x.V != nil && !seen[x.V] {
+				seen[x.V] = true
+				el := x.Args[1]
+				if el.Op == "slice" && el.Args[0].Op == "partial" {
+					el = el.Args[0].Args[0]
+				}
+				out = append(out, appSite{el, x.V.(ssa.Instruction)})
+			}
+		}
+	})
+	return out
+}
+
+// topAppendSites: like appendSites but does not descend into the appended elements themselves.
+func topAppendSites(t *Term) []appSite {
+	var out []appSite
+	seen := map[ssa.Value]bool{}
+	var walk func(x *Term)
+	walk = func(x *Term) {
+		if x == nil {
+			return
+		}
+		switch {
+		case x.Op == "collect":
+			if x.V != nil && !seen[x.V] {
+				seen[x.V] = true
+				out = append(out, appSite{x.Args[0], x.V.(ssa.Instruction)})
+			}
+			return
+		case x.isCall("builtin:append"):
+			if x.V != nil && !seen[x.V] {
+				seen[x.V] = true
+				el := x.Args[1]
+				if el.Op == "slice" && el.Args[0].Op == "partial" {
+					el = el.Args[0].Args[0]
+				}
+				out = append(out, appSite{el, x.V.(ssa.Instruction)})
+			}
+			walk(x.Args[0])
+			return
+		case x.Op == "phi" || x.Op == "anyof":
+			for _, a := range x.Args {
+				walk(a)
+			}
+		}
+	}
+	walk(t)
+	return out
 }
